@@ -1,4 +1,5 @@
 import RF.Model.Shape
+import RF.Model.CharClasses
 /-
 Model of the list machinery of `src/lists.rs`: `ListItem` and its predicates, `ListFormatting`,
 `needs_trailing_separator`, `SeparatorPlace::from_tactic` (config/lists.rs), `definitive_tactic`,
@@ -158,6 +159,23 @@ def optAny (p : List Char → Bool) : Option (List Char) → Bool
 /-- `comment.trim_start().starts_with("//")` -/
 def startsWithSlashes (comment : List Char) : Bool := startsWith ['/', '/'] (trimStart comment)
 
+/-- The position of the last character `CharClasses` tags `StartComment`; `i` is the position of the
+head of the list. -/
+def lastCommentStart : Nat → List (RF.CharClasses.Kind × Char) → Option Nat → Option Nat
+  | _, [], acc => acc
+  | i, (k, _) :: rest, acc =>
+    lastCommentStart (i + 1) rest (if k = RF.CharClasses.Kind.startComment then some i else acc)
+
+/-- `comment::ends_with_line_comment`: the last comment of the string is a line comment. -/
+def endsWithLineComment (s : List Char) : Bool :=
+  match lastCommentStart 0 (RF.CharClasses.classes s) none with
+  | some i => startsWith ['/', '/'] (s.drop i)
+  | none => false
+
+/-- `is_or_ends_with_line_comment` inside `has_single_line_comment`: `/* a */ // b` counts too. -/
+def isOrEndsWithLineComment (comment : List Char) : Bool :=
+  startsWithSlashes comment || endsWithLineComment comment
+
 namespace ListItem
 
 /-- `ListItem::from_str` -/
@@ -177,7 +195,7 @@ def isMultiline (self : ListItem) : Bool :=
 
 /-- lists.rs:170-178 -/
 def hasSingleLineComment (self : ListItem) : Bool :=
-  optAny startsWithSlashes self.preComment || optAny startsWithSlashes self.postComment
+  optAny isOrEndsWithLineComment self.preComment || optAny isOrEndsWithLineComment self.postComment
 
 /-- lists.rs:180-182 -/
 def hasComment (self : ListItem) : Bool := self.preComment.isSome || self.postComment.isSome
